@@ -86,3 +86,97 @@ func ReadDimacs(text string) (*DimacsFile, error) {
 	}
 	return d, nil
 }
+
+// ReadOPB reads an OPB text strictly: comment lines start with '*', an optional objective "min: terms ;",
+// constraints "terms (>=|=) integer ;", a term being "integer [~]xN". It returns the problem over the
+// highest variable mentioned.
+func ReadOPB(text string) (*Problem, error) {
+	p := &Problem{}
+	for ln, line := range strings.Split(text, "\n") {
+		t := strings.TrimSpace(line)
+		if t == "" || t[0] == '*' {
+			continue
+		}
+		if !strings.HasSuffix(t, ";") {
+			return nil, fmt.Errorf("line %d: %q does not end with ';'", ln+1, t)
+		}
+		f := strings.Fields(strings.TrimSuffix(t, ";"))
+		if len(f) == 0 {
+			return nil, fmt.Errorf("line %d: empty statement", ln+1)
+		}
+		terms := func(f []string) (lits, coefs []int, err error) {
+			if len(f)%2 != 0 {
+				return nil, nil, fmt.Errorf("line %d: terms %v are not (coefficient, variable) pairs", ln+1, f)
+			}
+			for i := 0; i < len(f); i += 2 {
+				w, err := strconv.Atoi(f[i])
+				if err != nil {
+					return nil, nil, fmt.Errorf("line %d: bad coefficient %q", ln+1, f[i])
+				}
+				name := f[i+1]
+				neg := false
+				if strings.HasPrefix(name, "~") {
+					neg, name = true, name[1:]
+				}
+				if !strings.HasPrefix(name, "x") {
+					return nil, nil, fmt.Errorf("line %d: bad variable %q", ln+1, f[i+1])
+				}
+				v, err := strconv.Atoi(name[1:])
+				if err != nil || v < 1 {
+					return nil, nil, fmt.Errorf("line %d: bad variable %q", ln+1, f[i+1])
+				}
+				if v > p.N {
+					p.N = v
+				}
+				if neg {
+					v = -v
+				}
+				lits, coefs = append(lits, v), append(coefs, w)
+			}
+			return lits, coefs, nil
+		}
+		if f[0] == "min:" {
+			if p.HasCost {
+				return nil, fmt.Errorf("line %d: second objective", ln+1)
+			}
+			lits, coefs, err := terms(f[1:])
+			if err != nil {
+				return nil, err
+			}
+			p.HasCost, p.CostLits, p.CostW = true, lits, coefs
+			if p.CostW == nil {
+				p.CostLits, p.CostW = []int{}, []int{}
+			}
+			continue
+		}
+		if len(f) < 2 {
+			return nil, fmt.Errorf("line %d: bad constraint %q", ln+1, t)
+		}
+		rel := f[len(f)-2]
+		rhs, err := strconv.Atoi(f[len(f)-1])
+		if err != nil {
+			return nil, fmt.Errorf("line %d: bad right-hand side %q", ln+1, f[len(f)-1])
+		}
+		lits, coefs, err := terms(f[:len(f)-2])
+		if err != nil {
+			return nil, err
+		}
+		if len(lits) == 0 {
+			return nil, fmt.Errorf("line %d: constraint without any term", ln+1)
+		}
+		c := Lin{Lits: lits, Coefs: coefs, Rhs: rhs}
+		if c.Coefs == nil {
+			c.Coefs = []int{}
+		}
+		switch rel {
+		case ">=":
+			c.Rel = GE
+		case "=":
+			c.Rel = EQ
+		default:
+			return nil, fmt.Errorf("line %d: bad relation %q", ln+1, rel)
+		}
+		p.Cons = append(p.Cons, c)
+	}
+	return p, nil
+}
